@@ -147,36 +147,49 @@ def centred_variance(ck, prog):
             ck.violation(rule, f"{need}::var exists", need, "", expected="anchor exists", found="anchor vanished")
     is_elem = lambda s: s[0] == "call" and s[1].endswith(("BaseMatrix::get", "BaseVector::get")) or s[0] == "idx"
     for b in sorted(targets, key=lambda b: b.path):
-        res = Resolver(b)
         inst = f"{(b.trait_default or b.impl_trait).split('::')[-1]}::var accumulates centred products"
-        n = 0
-        for bb, t in b.calls():
-            f = t.get("f")
-            if not (f and f["path"] == "std::ops::AddAssign::add_assign"):
-                continue
-            v = res.operand(t["args"][1])
+        bodies, stack = [b], list(prog.closures_of.get(b.path, []))
+        while stack:
+            c = stack.pop()
+            bodies.append(c)
+            stack.extend(prog.closures_of.get(c.path, []))
+        n, bad, good, site = 0, [], [], f"{b.loc[0]}:{b.loc[1]}"
+
+        def judge(v, where):
+            nonlocal n, site
             factors = None
             if v[0] == "call" and v[1] == "std::ops::Mul::mul":
                 factors = list(v[2])
             elif v[0] == "call" and v[1].endswith(("::powi", "::powf", "::square")):
                 factors = [v[2][0]]
             if factors is None:
-                continue
+                return
+            if not any(is_elem(s) or s[0] == "arg" for F in factors for s in subterms(F)):
+                return
             n += 1
-            bad = []
+            site = where
             for F in factors:
-                centred = F[0] == "call" and F[1] == "std::ops::Sub::sub" and any(is_elem(s) for s in subterms(F[2][0])) \
-                    and not is_elem(F[2][1]) and F[2][1][0] in ("phi", "call", "local")
-                if not centred:
-                    bad.append(render(F)[:60])
-            if bad:
-                ck.violation(rule, inst, b.path, b.where(bb), ordinal=n,
-                             expected="each accumulated product has factors of the form (element - mean)",
-                             found=f"accumulates a product of raw elements: {bad} (one-pass E[x^2] - E[x]^2: catastrophic cancellation for |mean| >> spread)")
-            else:
-                ck.ok(rule, inst, b.path, b.where(bb), render(v)[:100])
+                centred = F[0] == "call" and F[1] == "std::ops::Sub::sub" and (any(is_elem(s) for s in subterms(F[2][0])) or F[2][0][0] in ("arg", "field")) \
+                    and not is_elem(F[2][1]) and F[2][1][0] in ("phi", "call", "local", "upvar")
+                (good if centred else bad).append(render(F)[:60])
+        for bd in bodies:
+            rs = Resolver(bd)
+            for bb, t in bd.calls():
+                f = t.get("f")
+                if f and f["path"] == "std::ops::AddAssign::add_assign":
+                    judge(rs.operand(t["args"][1]), bd.where(bb))
+            if bd.kind == "Closure":
+                # fold / map closures: products in the returned expression
+                for s in subterms(rs.local(0)):
+                    if s[0] == "call" and (s[1] == "std::ops::Mul::mul" or s[1].endswith(("::powi", "::square"))):
+                        judge(s, f"{bd.loc[0]}:{bd.loc[1]}")
         if n == 0:
-            ck.violation(rule, inst, b.path, f"{b.loc[0]}:{b.loc[1]}", expected="an accumulation of squared deviations", found="no accumulated product found")
+            ck.violation(rule, inst, b.path, site, expected="an accumulation of squared deviations", found="no accumulated product found")
+        elif bad:
+            ck.violation(rule, inst, b.path, site, expected="each accumulated product has factors of the form (element - mean)",
+                         found=f"accumulates a product of raw elements: {bad[:2]} (one-pass E[x^2] - E[x]^2: catastrophic cancellation for |mean| >> spread)")
+        else:
+            ck.ok(rule, inst, b.path, site, f"{n} accumulated product(s), all centred: {good[:2]}")
     ck.floor(rule, 2)
 
 
